@@ -109,13 +109,14 @@ def events_suite(ctx, n):
         ctx.count('corr:events-' + kind)
         got_all = []
         bad = False
+        crashed = False
         for (t, d, a, b) in segs:
             out, boxes = impl_emsg(kind, sched, run['rts'], t, d)
             m = mo[pos]
             pos += 1
             if out and out[0] == 'CRASH':
                 ctx.violation('create_emsg_boxes raised %s' % out[1], {'sched': sched, 'run': run, 'segment': [t, d]})
-                bad = True
+                bad = crashed = True
                 continue
             inst = [[e[0], e[1] + a if e[2] == 0 else e[1]] for e in out]
             if inst != m:
@@ -124,9 +125,9 @@ def events_suite(ctx, n):
                 ctx.disagree('events', {'kind': kind, 'sched': sched, 'rts': run['rts'], 'segment': [t, d, a, b]}, m, inst)
             for e, (k, pt) in zip(out, inst):
                 got_all.append((k, pt, a, b, e))
-        if bad:
+        if crashed:
             continue
-        # ---- oracle: exactly the scheduled events of [A, B), each once, in its own segment
+        # ---- oracle (run even when the model disagrees: a disagreement is not yet a violation): exactly the scheduled events of [A, B), each once, in its own segment
         A, B = segs[0][2], segs[-1][3]
         want = []
         if sched['inband']:
